@@ -166,7 +166,7 @@ func VP_C11_bitsper() {
 func VP_C11_wire() {
 	bits := 1 + vp.Choice(32)
 	vpl := 64 / bits
-	n := []int{1, vpl, vpl + 1, 2*vpl + 1}[vp.Choice(4)]
+	n := []int{0, 1, vpl, vpl + 1, 2*vpl + 1}[vp.Choice(5)]
 	size := (n + vpl - 1) / vpl
 	raw := make([]uint64, size)
 	for k := range raw {
@@ -195,9 +195,18 @@ func VP_C11_wire() {
 	vp.Assert(err == nil, "ReadFrom err")
 	vp.Assert(rn == wn && r.Len() == len(trail), "ReadFrom consumes exactly the encoding")
 	vp.Assert(dst.Fix(bits) == nil, "Fix accepts")
-	j := vp.Int()
-	vp.Assume(j >= 0 && j < n)
-	vp.Assert(dst.Get(j) == src.Get(j), "value survives the wire")
 	vp.Assert(len(dst.Raw()) == size, "raw length")
+	for k := range raw {
+		vp.Assert(dst.Raw()[k] == raw[k], "raw longs survive the wire")
+	}
+	if n > 0 {
+		j := vp.Int()
+		vp.Assume(j >= 0 && j < n)
+		vp.Assert(dst.Get(j) == src.Get(j), "value survives the wire")
+	}
+	// what was read is what is written again
+	var w2 bytes.Buffer
+	dst.WriteTo(&w2)
+	vp.Assert(w2.Len() == 1+8*size, "re-encoded length")
 	vp.Cover("end")
 }
